@@ -155,7 +155,7 @@ func bItems(tier string) (items []bItem, states int, desc []map[string]any) {
 	}
 	cfgs := []cfg{{2, 3, 5}}
 	if tier == "thorough" {
-		cfgs = []cfg{{2, 4, len(bSeeds)}, {3, 3, 5}}
+		cfgs = []cfg{{2, 4, len(bSeeds)}, {3, 3, len(bSeeds)}}
 	}
 	for _, c := range cfgs {
 		ops := bAlphabet(c.nrooms)
@@ -207,6 +207,7 @@ func bItems(tier string) (items []bItem, states int, desc []map[string]any) {
 
 type bViolation struct {
 	Item   int    `json:"item"`
+	Len    int    `json:"len"`
 	Key    string `json:"key"`
 	Msg    string `json:"msg"`
 	Replay any    `json:"replay"`
@@ -238,7 +239,7 @@ func replayB(idx int, it bItem, out *bOut) {
 			return
 		}
 		seenKey[key] = true
-		out.Violations = append(out.Violations, bViolation{idx, key, fmt.Sprintf("set-up [%s] history [%s]: %s", bHistStr(it.setup), bHistStr(it.hist), detail), replay})
+		out.Violations = append(out.Violations, bViolation{idx, len(full), key, fmt.Sprintf("set-up [%s] history [%s]: %s", bHistStr(it.setup), bHistStr(it.hist), detail), replay})
 	}
 	finished := false
 	e := vsched.Run(vsched.Options{Horizon: 40 * time.Second}, func(e *vsched.Exec) {
@@ -512,7 +513,9 @@ func procsFlag() int {
 	return n
 }
 
-func partB(tier string, r *vx.Report) {
+// partB starts the worker processes and returns the function that waits for them and merges their
+// results into the report.
+func partB(tier string, r *vx.Report) (join func()) {
 	items, states, desc := bItems(tier)
 	n := procsFlag()
 	budget := 40 * time.Second
@@ -556,47 +559,54 @@ func partB(tier string, r *vx.Report) {
 			outs[k], capped[k] = res.Out, res.CappedAt
 		}()
 	}
-	wg.Wait()
-	var all []bViolation
-	replays, ops, bc, frames := 0, 0, 0, 0
-	sample := ""
-	for k := 0; k < n; k++ {
-		if errs[k] != "" {
-			r.HarnessErrs = append(r.HarnessErrs, errs[k])
-			continue
+	return func() {
+		wg.Wait()
+		var all []bViolation
+		replays, ops, bc, frames := 0, 0, 0, 0
+		sample := ""
+		for k := 0; k < n; k++ {
+			if errs[k] != "" {
+				r.HarnessErrs = append(r.HarnessErrs, errs[k])
+				continue
+			}
+			o := outs[k]
+			replays += o.Replays
+			ops += o.Ops
+			bc += o.Broadcasts
+			frames += o.Frames
+			all = append(all, o.Violations...)
+			r.HarnessErrs = append(r.HarnessErrs, o.HarnessErrs...)
+			if capped[k] >= 0 {
+				r.CapsHit = append(r.CapsHit, fmt.Sprintf("B: worker %d hit the deadline at history %d of %d", k, capped[k], len(items)))
+			}
+			if sample == "" {
+				sample = o.Sample
+			}
 		}
-		o := outs[k]
-		replays += o.Replays
-		ops += o.Ops
-		bc += o.Broadcasts
-		frames += o.Frames
-		all = append(all, o.Violations...)
-		r.HarnessErrs = append(r.HarnessErrs, o.HarnessErrs...)
-		if capped[k] >= 0 {
-			r.CapsHit = append(r.CapsHit, fmt.Sprintf("B: worker %d hit the deadline at history %d of %d", k, capped[k], len(items)))
+		sort.SliceStable(all, func(i, j int) bool { // smallest history first
+			if all[i].Len != all[j].Len {
+				return all[i].Len < all[j].Len
+			}
+			return all[i].Item < all[j].Item
+		})
+		for _, v := range all {
+			r.Violate(v.Key, v.Msg, v.Replay)
 		}
-		if sample == "" {
-			sample = o.Sample
+		nontrivial := 0
+		for _, it := range items {
+			if len(it.setup)+len(it.hist) >= 2 {
+				nontrivial++
+			}
 		}
-	}
-	sort.SliceStable(all, func(i, j int) bool { return all[i].Item < all[j].Item }) // smallest history first
-	for _, v := range all {
-		r.Violate(v.Key, v.Msg, v.Replay)
-	}
-	nontrivial := 0
-	for _, it := range items {
-		if len(it.setup)+len(it.hist) >= 2 {
-			nontrivial++
+		r.Evaluations += bc
+		r.States += states
+		r.Transitions += ops
+		r.TracesValidated += replays
+		r.DistinctNontriv += nontrivial
+		r.Extra["B/server-level"] = map[string]any{"configurations": desc, "histories_replayed_on_fresh_real_server": replays, "operations_replayed": ops,
+			"broadcasts_emitted_and_judged": bc, "event_frames_counted": frames, "worker_processes": n}
+		if sample != "" {
+			r.Sample(map[string]any{"part": "B", "history": sample, "checked": "adapter indexes and Rooms() equal the model after every step; every (T,E) through nsp and through each socket, EVENT frames counted per connection"})
 		}
-	}
-	r.Evaluations += bc
-	r.States += states
-	r.Transitions += ops
-	r.TracesValidated += replays
-	r.DistinctNontriv += nontrivial
-	r.Extra["B/server-level"] = map[string]any{"configurations": desc, "histories_replayed_on_fresh_real_server": replays, "operations_replayed": ops,
-		"broadcasts_emitted_and_judged": bc, "event_frames_counted": frames, "worker_processes": n}
-	if sample != "" {
-		r.Sample(map[string]any{"part": "B", "history": sample, "checked": "adapter indexes and Rooms() equal the model after every step; every (T,E) through nsp and through each socket, EVENT frames counted per connection"})
 	}
 }
